@@ -78,6 +78,59 @@ def terpene_profiles() -> List[Dict[str, Any]]:
                 for p in json.load(handle)["profiles"]]
 
 
+def _hmm_names(path: str) -> List[Dict[str, Any]]:
+    """ NAME / LENG of every profile in a HMMer3 file of the code base itself """
+    found: List[Dict[str, Any]] = []
+    with open(path, encoding="utf-8") as handle:
+        for line in handle:
+            if line.startswith("NAME "):
+                found.append({"name": line.split(None, 1)[1].strip(), "length": 60})
+            elif line.startswith("LENG ") and found:
+                found[-1]["length"] = int(line.split()[1])
+    return found
+
+
+def smcog_profiles() -> List[Dict[str, Any]]:
+    """ the first few secondary metabolism COGs the gene function module knows (smcogs.hmm itself is emptied
+        in this sandbox; hmmscan names the hits '<id>:<description>') """
+    from antismash.detection.genefunctions.tools import smcogs
+    with open(smcogs.METADATA, encoding="utf-8") as handle:
+        profiles = json.load(handle)["profiles"]
+    return [{"name": f"{p['id']}:{p['description'].replace(' ', '_')}", "length": 60}
+            for p in sorted(profiles, key=lambda p: p["id"])[:10]]
+
+
+def extras_profiles() -> List[Dict[str, Any]]:
+    """ the 'extras' gene function profiles, with the cutoff of each from the module's metadata """
+    from antismash.detection.genefunctions.tools import extras
+    with open(extras.ENTRY_DATA, encoding="utf-8") as handle:
+        cutoffs = {entry["identifier"]: float(entry["cutoff"]) for entry in json.load(handle)["entries"]}
+    return [dict(p, cutoff=cutoffs[p["name"]]) for p in sorted(_hmm_names(extras.DATABASE), key=lambda p: p["name"])
+            if p["name"] in cutoffs][:8]
+
+
+def rre_profiles() -> List[Dict[str, Any]]:
+    """ the RRE profiles of RREFinder's own database """
+    import antismash.modules.rrefinder as rrefinder
+    path = os.path.join(os.path.dirname(rrefinder.__file__), "data", "RREFam.hmm")
+    return sorted(_hmm_names(path), key=lambda p: p["name"])[:8]
+
+
+# databases that only exist below the (scratch) database directory: name -> (accession, cutoff)
+TIGR_PROFILES = {"TIGR00001": ("TIGR00001", 30.0), "TIGR01720": ("TIGR01720", 25.0), "TIGR02353": ("TIGR02353", 25.0),
+                 "TIGR03604": ("TIGR03604", 40.0), "TIGR04098": ("TIGR04098", 20.0)}
+RESFAM_PROFILES = {"ABCAntibioticEffluxPump": ("RF0007", 40.0), "ClassA": ("RF0053", 40.0), "MFS_efflux": ("RF0098", 30.0),
+                   "vanA": ("RF0155", 50.0)}
+MITE_ENTRIES = {
+    "MITE0000001": {"accession": "MITE0000001", "description": "simulated methyltransferase", "groups": [2],
+                    "functions": ["methyltransferase"], "version": "1"},
+    "MITE0000002": {"accession": "MITE0000002", "description": "simulated oxidase", "groups": [1],
+                    "functions": ["hydroxylase", "oxidase"], "version": "2"},
+    "MITE0000003": {"accession": "MITE0000003", "description": "simulated halogenase", "groups": [1],
+                    "functions": ["halogenase"], "version": "1"},
+}
+
+
 def module_layout(rng: Any) -> List[Any]:
     """ A seeded domain layout for one gene: 1-3 modules in the grammar the module builder documents
         ([starter] loader [modification...] carrier [finalisation]), including trans-AT modules, CoA-ligase
@@ -157,6 +210,19 @@ def database_dir() -> str:
         with open(pressed, "w", encoding="utf-8") as handle:
             handle.write("placeholder for hmmpress output\n")
         os.utime(pressed, (stamp, stamp))
+    for subdir, filename, table in (("tigrfam", "TIGRFam.hmm", TIGR_PROFILES), ("resfam", "Resfams.hmm", RESFAM_PROFILES)):
+        os.makedirs(os.path.join(path, subdir))
+        with open(os.path.join(path, subdir, filename), "w", encoding="utf-8") as handle:
+            for name, (accession, cutoff) in table.items():
+                handle.write(f"HMMER3/f [3.1b2 | February 2015]\nNAME  {name}\nACC   {accession}\nDESC  simulated {name}\n"
+                             f"LENG  60\nTC    {cutoff} {cutoff};\nGA    {cutoff} {cutoff};\n//\n")
+    mite = os.path.join(path, "mite", "1.0")
+    os.makedirs(mite)
+    with open(os.path.join(mite, "metadata.json"), "w", encoding="utf-8") as handle:
+        json.dump({"version": "1.0", "url": "https://mite.example.org/repository/{accession}", "entries": MITE_ENTRIES},
+                  handle)
+    with open(os.path.join(mite, "mite.fasta"), "w", encoding="utf-8") as handle:
+        handle.write("".join(f">{name}\nMAGIC\n" for name in MITE_ENTRIES))
     with open(os.path.join(path, "complete"), "w", encoding="utf-8"):
         pass
     try:
@@ -281,6 +347,22 @@ def make_hmmscan(domain_hits: Dict[str, List[Dict[str, Any]]]) -> Callable:
     return fake
 
 
+def make_diamond(mite_hits: List[Dict[str, Any]]) -> Callable:
+    """ mite_hits: [{"cds", "entry", "identity", "bitscore", "evalue"}] -> diamond's tabular output for the
+        genes present in the query file, in table order (diamond reports the hits of a query best first, the
+        table is generated in that order) """
+    def fake(query_file: str, database_file: str, mode: str = "blastp", opts: Any = None) -> str:  # pylint: disable=unused-argument
+        with open(query_file, encoding="utf-8") as handle:
+            present = set(_fasta_names(handle.read()))
+        lines = []
+        for hit in mite_hits:
+            if hit["cds"] in present:
+                lines.append("\t".join(str(part) for part in [
+                    hit["cds"], hit["entry"], hit["identity"], 100, 5, 0, 1, 100, 1, 100, hit["evalue"], hit["bitscore"]]))
+        return "\n".join(lines) + ("\n" if lines else "")
+    return fake
+
+
 class SimClock:
     """ The only clock the invocation reads """
 
@@ -311,12 +393,18 @@ def _install(inv: Dict[str, Any]) -> None:
     real_lengths = utils.get_hmm_lengths
     fake_files = set(inv.get("domain_hits", {})) | {"nrpspksdomains.hmm", "abmotifs.hmm", "ksdomains.hmm",
                                                      "transATor.hmm", "t2pks.hmm"}
+    # profile files that exist (in the code base or the scratch database directory) are read for real
+    fake_files -= {"extras.hmm", "Resfams.hmm", "TIGRFam.hmm", "RREFam.hmm"}
+    smcog_lengths = {profile["name"]: profile["length"] for profile in smcog_profiles()}
+    from antismash.common.subprocessing import diamond as diamond_module
+    diamond_module.run_diamond_search = make_diamond(inv.get("domain_hits", {}).get("mite.fasta", []))   # MITE lookup of the gene functions
     subprocessing.run_blastp = lambda *args, **kwargs: []     # starter unit search of the type II PKS module
 
     def lengths(hmm_file: str) -> Dict[str, int]:
         if os.path.basename(hmm_file) in fake_files:
             table = dict(DOMAIN_PROFILES)
             table.update(inv.get("domain_lengths", {}))
+            table.update(smcog_lengths)
             return table
         return real_lengths(hmm_file)
     utils.get_hmm_lengths = lengths
